@@ -60,6 +60,23 @@ Holds(c, r) ==
                                        /\ (ok /\ ~r.exact /\ r.floatGap) => r.dpos
     [] c = "SupportCallsBounded"    -> r.supportCalls <= MaxSupport
 
+(* ---------------- boolean tests (C02): kind = "bool" ----------------
+   r.answer; the exact certificate as above; r.deep = the harness found a common point at least
+   delta = 1e-3*L inside both colliders (depth lower bounds from module Shapes' mirrors); G is chosen by
+   the harness so that 1/G lattice units >= delta.  Inside the band any answer is accepted. *)
+BoolClauses == <<"NoException", "ORACLE_CertInvalid", "ORACLE_DeepButDisjoint", "DeepOverlapTrue", "ClearGapFalse",
+                 "SupportCallsBounded">>
+BoolHolds(c, r) ==
+  LET ex == r.exact /\ CertOK(r) IN
+  CASE c = "NoException"            -> r.exc = "none"
+    [] c = "ORACLE_CertInvalid"     -> r.exact => CertOK(r)
+    [] c = "ORACLE_DeepButDisjoint" -> (ex /\ r.deep) => Overlap(r)
+    [] c = "DeepOverlapTrue"        -> (r.exc = "none" /\ r.deep) => r.answer
+    [] c = "ClearGapFalse"          -> /\ (r.exc = "none" /\ ex /\ ClearGap(r)) => ~r.answer
+                                       /\ (r.exc = "none" /\ ~r.exact /\ r.floatGap) => ~r.answer
+    [] c = "SupportCallsBounded"    -> r.supportCalls <= MaxSupport
+BoolFailing(r) == {c \in Range(BoolClauses) : ~BoolHolds(c, r)}
+
 (* Named trace pattern for a known finding (DESIGN section 8): the query ended on a simplex of 2..4
    points whose smallest extent is below 1e-9 of its largest (flatDec = decimal exponent of that ratio,
    observed by the harness at the library's final witness-point computation; -99 = exactly degenerate).
